@@ -2,6 +2,7 @@ package rules
 
 import (
 	"go/token"
+	"sort"
 	"strings"
 
 	"golang.org/x/tools/go/ssa"
@@ -25,12 +26,40 @@ func init() {
 			Old: "\tif threshold <= 0 {\n\t\tthreshold = cluster.Threshold(len(nodes))\n",
 			New: "\tif safe := cluster.Threshold(len(nodes)); threshold < safe {\n\t\tthreshold = safe\n"},
 		Mutant{ID: "TP-C11-frost-plus-one", File: "dkg/frost.go", Expect: "TP",
-			Old: "\t\t\tshareIdx,\n\t\t\tthreshold,\n\t\t\tdgkCtx,", New: "\t\t\tshareIdx,\n\t\t\tthreshold+1,\n\t\t\tdgkCtx,"})
+			Old: "\t\t\tshareIdx,\n\t\t\tthreshold,\n\t\t\tdgkCtx,", New: "\t\t\tshareIdx,\n\t\t\tthreshold+1,\n\t\t\tdgkCtx,"},
+		// the default replaces a configured value on another edge than `configured <= 0`
+		Mutant{ID: "TP-C11-pedersen-default-below-two", File: "dkg/pedersen/dkg.go", Expect: "TP",
+			Old: "\tif threshold <= 0 {\n\t\tthreshold = cluster.Threshold(len(nodes))\n",
+			New: "\tif threshold <= 1 {\n\t\tthreshold = cluster.Threshold(len(nodes))\n"},
+		// clamping hidden in a helper (the rule follows the helper's return values)
+		Mutant{ID: "TP-C11-reshare-helper-clamp", File: "dkg/pedersen/reshare.go", Expect: "TP",
+			Old: "\t\t\tThreshold:    newThreshold,",
+			New: "\t\t\tThreshold: func(t, old int) int {\n\t\t\t\tif t < old {\n\t\t\t\t\treturn old\n\t\t\t\t}\n\n\t\t\t\treturn t\n\t\t\t}(newThreshold, config.Threshold+1),"},
+		// the caller passes something that is not the configured threshold
+		Mutant{ID: "TP-C11-frost-caller-numnodes", File: "dkg/frost.go", Expect: "TP",
+			Old: "\tvalidators, err := newFrostParticipants(numValidators, numNodes, threshold, shareIdx, dgkCtx)",
+			New: "\tvalidators, err := newFrostParticipants(numValidators, numNodes, numNodes-threshold+1, shareIdx, dgkCtx)"},
+		// the default also replaces configured values below it
+		Mutant{ID: "TP-C11-reshare-default-also-clamps", File: "dkg/pedersen/reshare.go", Expect: "TP",
+			Old: "\tif newThreshold <= 0 {\n\t\tnewThreshold = cluster.Threshold(len(newNodes))\n",
+			New: "\tif newThreshold <= 0 || newThreshold < cluster.Threshold(len(newNodes)) {\n\t\tnewThreshold = cluster.Threshold(len(newNodes))\n"})
 	Extend("C12", "(TP) the threshold given to tbls.ThresholdSplit when creating a cluster is the configured threshold by provenance.",
 		func(c *rt.Ctx) { thresholdProv(c, "C12") },
 		Mutant{ID: "TP-C12-split-clamp", File: "cmd/createcluster.go", Expect: "TP",
 			Old: "\t\tshares, err := tbls.ThresholdSplit(secret, uint(numNodes), uint(threshold))",
-			New: "\t\tshares, err := tbls.ThresholdSplit(secret, uint(numNodes), uint(max(threshold, cluster.Threshold(numNodes))))"})
+			New: "\t\tshares, err := tbls.ThresholdSplit(secret, uint(numNodes), uint(max(threshold, cluster.Threshold(numNodes))))"},
+		// the caller hands the split something else than the definition's threshold
+		Mutant{ID: "TP-C12-split-caller-safe-threshold", File: "cmd/createcluster.go", Expect: "TP",
+			Old: "\tpubkeys, shareSets, err := getTSSShares(secrets, def.Threshold, numNodes)",
+			New: "\tpubkeys, shareSets, err := getTSSShares(secrets, cluster.Threshold(numNodes), numNodes)"},
+		// a wrapper that rounds the threshold up to an odd number
+		Mutant{ID: "TP-C12-split-helper-rounds", File: "cmd/createcluster.go", Expect: "TP",
+			Old: "\t\tshares, err := tbls.ThresholdSplit(secret, uint(numNodes), uint(threshold))",
+			New: "\t\tshares, err := tbls.ThresholdSplit(secret, uint(numNodes), func(t int) uint { return uint(t | 1) }(threshold))"},
+		// a local that is reassigned before the split
+		Mutant{ID: "TP-C12-split-local-reassigned", File: "cmd/createcluster.go", Expect: "TP",
+			Old: "\tfor _, secret := range secrets {\n\t\tshares, err := tbls.ThresholdSplit(secret, uint(numNodes), uint(threshold))",
+			New: "\tif threshold < numNodes {\n\t\tthreshold++\n\t}\n\n\tfor _, secret := range secrets {\n\t\tshares, err := tbls.ThresholdSplit(secret, uint(numNodes), uint(threshold))"})
 }
 
 type tpSink struct {
@@ -39,6 +68,15 @@ type tpSink struct {
 	v    ssa.Value
 	what string
 }
+
+// tri-state verdict of a provenance walk
+type tpVerdict int
+
+const (
+	tpOK tpVerdict = iota
+	tpBad
+	tpUnsure
+)
 
 func thresholdProv(c *rt.Ctx, prop string) {
 	min := map[string]int{"C11": 3, "C12": 1}[prop]
@@ -83,140 +121,314 @@ func thresholdProv(c *rt.Ctx, prop string) {
 				}
 			}
 		}
+		w := &tpWalker{c: c}
 		for _, s := range sinks {
-			ok, why := tpAccept(c, s.v, 0)
-			c.Check(an.FuncName(s.fn)+" "+s.what, s.at.Pos(), ok, "the threshold handed to the threshold scheme is not the configured one: "+why)
+			w.seen = map[ssa.Value]bool{}
+			vd, why := w.accept(s.v, s.at.Block(), 0)
+			k := an.FuncName(s.fn) + " " + s.what
+			switch vd {
+			case tpOK:
+				c.Good(k, s.at.Pos(), "configured threshold by provenance")
+			case tpBad:
+				c.Bad(k, s.at.Pos(), "the threshold handed to the threshold scheme is not the configured one: "+why)
+			default:
+				c.Unsure(k, s.at.Pos(), "cannot follow the provenance of the threshold handed to the threshold scheme: "+why)
+			}
 		}
 	})
 }
 
-func tpAccept(c *rt.Ctx, v ssa.Value, d int) (bool, string) {
-	if d > 4 {
-		return false, "provenance too deep"
+// tpWalker decides whether a value is, by provenance, the configured threshold: a parameter (every in-repo call
+// site passes an accepted value), a `*Threshold` field, a conversion / local / spill slot / phi of accepted values,
+// the successful return value of an in-repo helper, or the default cluster.Threshold(n) on the `configured <= 0`
+// edge only. Arithmetic, clamping builtins, constants and foreign calls are rejected; shapes the walker does not
+// know are undecided.
+type tpWalker struct {
+	c      *rt.Ctx
+	seen   map[ssa.Value]bool
+	stores map[string][]*ssa.Store // field key -> stores anywhere in the repository (lazily built)
+	sites  map[*ssa.Function][]ssa.CallInstruction
+
+	seenField map[string]bool
+}
+
+// accept decides value v as it flows out of block at.
+func (w *tpWalker) accept(v ssa.Value, at *ssa.BasicBlock, d int) (tpVerdict, string) {
+	if d > 12 {
+		return tpUnsure, "provenance too deep"
 	}
-	v = an.Resolve(v)
+	v = an.Unwrap(v)
 	switch x := v.(type) {
 	case *ssa.Parameter:
-		// every in-repo static call site must pass an accepted value
-		fn := x.Parent()
-		idx := -1
-		for i, p := range fn.Params {
-			if p == x {
-				idx = i
+		return w.param(x, d)
+	case *ssa.FreeVar:
+		b := an.ClosureBinding(x)
+		if b == nil {
+			return tpUnsure, "free variable binding not found"
+		}
+		if al, ok := b.(*ssa.Alloc); ok {
+			return w.alloc(al, d)
+		}
+		return w.accept(b, nil, d+1)
+	case *ssa.Field:
+		return w.field(an.FieldKey(x.X.Type(), x.Field), fieldNameOf(x.X.Type(), x.Field), d)
+	case *ssa.UnOp:
+		if x.Op == token.MUL {
+			switch a := x.X.(type) {
+			case *ssa.FieldAddr:
+				return w.field(an.FieldKey(a.X.Type(), a.Field), fieldNameOf(a.X.Type(), a.Field), d)
+			case *ssa.Alloc:
+				// straight-line spill slot first (functions with defer), then all stores
+				if sv := an.SpillValue(x); sv != ssa.Value(x) {
+					return w.accept(sv, x.Block(), d+1)
+				}
+				return w.alloc(a, d)
+			case *ssa.FreeVar:
+				return w.accept(a, at, d+1)
+			}
+			return tpUnsure, "load through an untracked pointer"
+		}
+		return tpBad, "derived by " + x.Op.String()
+	case *ssa.Phi:
+		if w.seen[x] {
+			return tpOK, "" // loop-carried: decided by the other edges
+		}
+		w.seen[x] = true
+		for i, e := range x.Edges {
+			if vd, why := w.accept(e, x.Block().Preds[i], d+1); vd != tpOK {
+				return vd, why
 			}
 		}
-		n := 0
-		for g := range ssautil.AllFunctions(c.P.SSA) {
-			if g.Blocks == nil || g.Pkg == nil || !strings.HasPrefix(g.Pkg.Pkg.Path(), "github.com/obolnetwork/charon") {
+		return tpOK, ""
+	case *ssa.Extract:
+		if call, ok := x.Tuple.(*ssa.Call); ok {
+			return w.call(call, x.Index, at, d)
+		}
+		return tpUnsure, "component of a non-call tuple"
+	case *ssa.Call:
+		return w.call(x, 0, at, d)
+	case *ssa.BinOp:
+		return tpBad, "arithmetic (" + x.Op.String() + ")"
+	case *ssa.Const:
+		return tpBad, "a constant"
+	}
+	return tpUnsure, "unrecognised provenance"
+}
+
+func (w *tpWalker) call(x *ssa.Call, idx int, at *ssa.BasicBlock, d int) (tpVerdict, string) {
+	name := an.CalleeName(&x.Call)
+	if name == "cluster.Threshold" {
+		if at == nil {
+			at = x.Block()
+		}
+		if w.onDefaultEdge(at, d) {
+			return tpOK, ""
+		}
+		return tpBad, "the default cluster.Threshold(n) replaces the configured value on an edge other than `configured <= 0`"
+	}
+	body := an.StaticBody(&x.Call)
+	if body == nil {
+		return tpBad, "result of " + name + "(…)"
+	}
+	if w.seen[x] {
+		return tpOK, ""
+	}
+	w.seen[x] = true
+	cases := an.SuccessCases(body)
+	if len(cases) == 0 {
+		return tpUnsure, "helper " + an.FuncName(body) + " has no successful return"
+	}
+	for _, rc := range cases {
+		if idx >= len(rc.Vals) {
+			return tpUnsure, "helper result index out of range"
+		}
+		if vd, why := w.accept(rc.Vals[idx], rc.At, d+1); vd != tpOK {
+			return vd, "via " + an.FuncName(body) + ": " + why
+		}
+	}
+	return tpOK, ""
+}
+
+// onDefaultEdge: block at is confined to the `X <= 0` edge of a branch on a configured threshold X.
+func (w *tpWalker) onDefaultEdge(at *ssa.BasicBlock, d int) bool {
+	fn := at.Parent()
+	for _, b := range fn.Blocks {
+		if len(b.Instrs) == 0 {
+			continue
+		}
+		iff, ok := b.Instrs[len(b.Instrs)-1].(*ssa.If)
+		if !ok {
+			continue
+		}
+		cond := iff.Cond
+		neg := false
+		for {
+			u, ok := cond.(*ssa.UnOp)
+			if !ok || u.Op != token.NOT {
+				break
+			}
+			cond, neg = u.X, !neg
+		}
+		bin, ok := cond.(*ssa.BinOp)
+		if !ok {
+			continue
+		}
+		x, y, op := bin.X, bin.Y, bin.Op
+		if _, isC := an.ConstInt(x); isC {
+			x, y = y, x
+			switch op {
+			case token.LSS:
+				op = token.GTR
+			case token.LEQ:
+				op = token.GEQ
+			case token.GTR:
+				op = token.LSS
+			case token.GEQ:
+				op = token.LEQ
+			}
+		}
+		n, isC := an.ConstInt(y)
+		if !isC {
+			continue
+		}
+		// which truth value of (x op n) means "x <= 0" ?
+		var whenTrue bool
+		switch {
+		case (op == token.LEQ && n == 0) || (op == token.LSS && n == 1) || (op == token.EQL && n == 0):
+			whenTrue = true
+		case (op == token.GTR && n == 0) || (op == token.GEQ && n == 1) || (op == token.NEQ && n == 0):
+			whenTrue = false
+		default:
+			continue
+		}
+		if neg {
+			whenTrue = !whenTrue
+		}
+		succ := b.Succs[1]
+		if whenTrue {
+			succ = b.Succs[0]
+		}
+		if !an.EdgeConfines(b, succ, at) {
+			continue
+		}
+		sub := &tpWalker{c: w.c, seen: map[ssa.Value]bool{}, stores: w.stores, sites: w.sites}
+		if vd, _ := sub.accept(x, b, d+1); vd == tpOK {
+			return true
+		}
+	}
+	return false
+}
+
+func (w *tpWalker) callSites() map[*ssa.Function][]ssa.CallInstruction {
+	if w.sites != nil {
+		return w.sites
+	}
+	w.sites = map[*ssa.Function][]ssa.CallInstruction{}
+	for g := range ssautil.AllFunctions(w.c.P.SSA) {
+		if !an.InRepo(g) || g.Synthetic != "" {
+			continue
+		}
+		if g.Pkg != nil && strings.Contains(g.Pkg.Pkg.Path(), "/testutil") {
+			continue
+		}
+		if tpTestHelper(g) {
+			continue
+		}
+		for _, in := range an.Instrs(g, false) {
+			ci, ok := in.(ssa.CallInstruction)
+			if !ok {
 				continue
 			}
-			if strings.Contains(g.Pkg.Pkg.Path(), "/testutil") {
+			if f := an.StaticBody(ci.Common()); f != nil {
+				w.sites[an.Orig(f)] = append(w.sites[an.Orig(f)], ci)
+			}
+		}
+	}
+	return w.sites
+}
+
+// param: every in-repo static call site must pass an accepted value (an exported or otherwise uncalled function
+// receives the configured value from outside the analysed code).
+func (w *tpWalker) param(x *ssa.Parameter, d int) (tpVerdict, string) {
+	if w.seen[x] {
+		return tpOK, ""
+	}
+	w.seen[x] = true
+	fn := x.Parent()
+	idx := an.ParamIndex(x)
+	sites := w.callSites()[an.Orig(fn)]
+	sort.Slice(sites, func(i, j int) bool { return sites[i].Pos() < sites[j].Pos() })
+	for _, ci := range sites {
+		if idx >= len(ci.Common().Args) {
+			continue
+		}
+		if vd, why := w.accept(ci.Common().Args[idx], ci.Block(), d+1); vd != tpOK {
+			return vd, "caller " + an.FuncName(ci.Parent()) + ": " + why
+		}
+	}
+	if len(sites) == 0 && fn.Parent() != nil {
+		return tpUnsure, "function literal " + an.FuncName(fn) + " receives the threshold through a dynamic call"
+	}
+	return tpOK, ""
+}
+
+// alloc: a local variable (spilled because it is captured or address-taken): every store must be accepted.
+func (w *tpWalker) alloc(al *ssa.Alloc, d int) (tpVerdict, string) {
+	if w.seen[al] {
+		return tpOK, ""
+	}
+	w.seen[al] = true
+	sts := an.StoresTo(al)
+	if len(sts) == 0 {
+		return tpBad, "a local that is never assigned (zero)"
+	}
+	for _, st := range sts {
+		if vd, why := w.accept(st.Val, st.Block(), d+1); vd != tpOK {
+			return vd, why
+		}
+	}
+	return tpOK, ""
+}
+
+// field: a field whose name says threshold is the configured value; any other field is followed to the values
+// stored into it anywhere in the repository.
+func (w *tpWalker) field(key, name string, d int) (tpVerdict, string) {
+	if strings.Contains(name, "hreshold") {
+		return tpOK, ""
+	}
+	if w.stores == nil {
+		w.stores = map[string][]*ssa.Store{}
+		for g := range ssautil.AllFunctions(w.c.P.SSA) {
+			if !an.InRepo(g) {
 				continue
 			}
 			for _, in := range an.Instrs(g, false) {
-				ci, ok := in.(ssa.CallInstruction)
-				if !ok || an.Orig(ci.Common().StaticCallee()) != an.Orig(fn) || idx >= len(ci.Common().Args) {
-					continue
-				}
-				n++
-				if ok2, why := tpAccept(c, ci.Common().Args[idx], d+1); !ok2 {
-					return false, "caller " + an.FuncName(g) + ": " + why
-				}
-			}
-		}
-		_ = n
-		return true, ""
-	case *ssa.Field:
-		if strings.Contains(fieldNameOf(x.X.Type(), x.Field), "hreshold") {
-			return true, ""
-		}
-		return false, "read from field " + fieldNameOf(x.X.Type(), x.Field)
-	case *ssa.UnOp:
-		if x.Op == token.MUL {
-			if fa, ok := x.X.(*ssa.FieldAddr); ok {
-				if strings.Contains(fieldNameOf(fa.X.Type(), fa.Field), "hreshold") {
-					return true, ""
-				}
-				return false, "read from field " + fieldNameOf(fa.X.Type(), fa.Field)
-			}
-			if fv, ok := x.X.(*ssa.FreeVar); ok {
-				return tpFreeVar(c, fv, d)
-			}
-		}
-		return false, "derived by " + x.Op.String()
-	case *ssa.FreeVar:
-		return tpFreeVar(c, x, d)
-	case *ssa.Phi:
-		if len(x.Edges) == 2 {
-			for i := 0; i < 2; i++ {
-				conf, def := x.Edges[i], x.Edges[1-i]
-				call, ok := an.Unwrap(def).(*ssa.Call)
-				if !ok || an.CalleeName(&call.Call) != "cluster.Threshold" {
-					continue
-				}
-				if ok2, why := tpAccept(c, conf, d+1); !ok2 {
-					return false, why
-				}
-				// the default edge must be the `configured <= 0` edge
-				defBlock := x.Block().Preds[1-i]
-				for _, cd := range an.CondsOn(x.Parent(), an.Resolve(conf)) {
-					n, isC := an.ConstInt(cd.Other)
-					if !isC || cd.Neg {
-						continue
-					}
-					if (cd.Op == token.LEQ && n == 0) || (cd.Op == token.LSS && n == 1) || (cd.Op == token.EQL && n == 0) {
-						t := cd.Succ(true)
-						if t == defBlock || t.Dominates(defBlock) {
-							return true, ""
-						}
+				if st, ok := in.(*ssa.Store); ok {
+					if fa, ok := st.Addr.(*ssa.FieldAddr); ok {
+						k := an.FieldKey(fa.X.Type(), fa.Field)
+						w.stores[k] = append(w.stores[k], st)
 					}
 				}
-				return false, "the default cluster.Threshold(n) replaces the configured value on an edge other than `configured <= 0`"
-			}
-		}
-		for _, e := range x.Edges {
-			if ok, why := tpAccept(c, e, d+1); !ok {
-				return false, why
-			}
-		}
-		return true, ""
-	case *ssa.Call:
-		return false, "result of " + an.CalleeName(&x.Call) + "(…)"
-	case *ssa.BinOp:
-		return false, "arithmetic (" + x.Op.String() + ")"
-	case *ssa.Const:
-		return false, "a constant"
-	case *ssa.Extract:
-		return false, "a call result"
-	}
-	return false, "unrecognised provenance"
-}
-
-func tpFreeVar(c *rt.Ctx, fv *ssa.FreeVar, d int) (bool, string) {
-	cl := fv.Parent()
-	par := cl.Parent()
-	if par == nil {
-		return false, "free variable without parent"
-	}
-	for _, in := range an.Instrs(par, false) {
-		mc, ok := in.(*ssa.MakeClosure)
-		if !ok || mc.Fn != ssa.Value(cl) {
-			continue
-		}
-		for i, f := range cl.FreeVars {
-			if f == fv {
-				b := mc.Bindings[i]
-				if al, ok := b.(*ssa.Alloc); ok {
-					if s := an.UniqueStore(al); s != nil {
-						return tpAccept(c, s, d+1)
-					}
-					return false, "captured variable assigned more than once"
-				}
-				return tpAccept(c, b, d+1)
 			}
 		}
 	}
-	return false, "free variable binding not found"
+	sts := w.stores[key]
+	if len(sts) == 0 {
+		return tpBad, "read from field " + name + " (never assigned a threshold)"
+	}
+	if w.seenField[key] {
+		return tpOK, ""
+	}
+	if w.seenField == nil {
+		w.seenField = map[string]bool{}
+	}
+	w.seenField[key] = true
+	for _, st := range sts {
+		if vd, why := w.accept(st.Val, st.Block(), d+1); vd != tpOK {
+			return vd, "field " + name + ": " + why
+		}
+	}
+	return tpOK, ""
 }
 
 // tpTestHelper: functions taking a *testing.T (test fixtures living in non-test files).
